@@ -178,7 +178,14 @@ type balanceHubActor[T any] struct {
 	seqNo      uint64
 	cancelled  int
 	nextSlot   int // round-robin cursor for selecting next recipient
-	config     StageConfig
+	// buf holds elements that arrived while no active slot had demand (an upstream
+	// stage such as ParallelMap pushes without waiting for demand); they are routed
+	// as soon as a slot signals demand.
+	buf queue
+	// upstreamDone is set when upstream completed while buf was not empty; completion
+	// is propagated once buf has drained.
+	upstreamDone bool
+	config       StageConfig
 }
 
 func (a *balanceHubActor[T]) PreStart(_ *actor.Context) error { return nil }
@@ -197,40 +204,29 @@ func (a *balanceHubActor[T]) Receive(rctx *actor.ReceiveContext) {
 
 	case *slotDemand:
 		a.demand[msg.slot] += msg.n
+		a.drain(rctx)
+		if a.upstreamDone && a.buf.empty() {
+			a.complete(rctx)
+			return
+		}
 		a.maybePull(rctx)
 
 	case *streamElement:
 		a.pending--
-		// Route to the next slot with available demand (round-robin).
-		chosen := -1
-		for i := 0; i < a.n; i++ {
-			idx := (a.nextSlot + i) % a.n
-			if a.slots[idx] != nil && a.demand[idx] > 0 {
-				chosen = idx
-				break
-			}
-		}
-
-		if chosen >= 0 {
-			a.seqNo++
-			rctx.Tell(a.slots[chosen], &streamElement{
-				subID: a.slotSubIDs[chosen],
-				value: msg.value,
-				seqNo: a.seqNo,
-			})
-			a.demand[chosen]--
-			a.nextSlot = (chosen + 1) % a.n
-		}
+		// Route to the next slot with available demand (round-robin); an element that
+		// finds no demand waits in buf instead of being dropped.
+		a.buf.push(msg.value)
+		a.drain(rctx)
 		// Pull more if demand remains.
 		a.maybePull(rctx)
 
 	case *streamComplete:
-		for i, slot := range a.slots {
-			if slot != nil {
-				rctx.Tell(slot, &streamComplete{subID: a.slotSubIDs[i]})
-			}
+		if !a.buf.empty() {
+			// deliver what is buffered before completing the branches
+			a.upstreamDone = true
+			return
 		}
-		rctx.Shutdown()
+		a.complete(rctx)
 
 	case *streamError:
 		for i, slot := range a.slots {
@@ -258,6 +254,42 @@ func (a *balanceHubActor[T]) Receive(rctx *actor.ReceiveContext) {
 }
 
 func (a *balanceHubActor[T]) PostStop(_ *actor.Context) error { return nil }
+
+// drain routes buffered elements, oldest first, each to the next active slot with
+// demand in round-robin order, until the buffer is empty or no slot has demand.
+func (a *balanceHubActor[T]) drain(rctx *actor.ReceiveContext) {
+	for !a.buf.empty() {
+		chosen := -1
+		for i := 0; i < a.n; i++ {
+			idx := (a.nextSlot + i) % a.n
+			if a.slots[idx] != nil && a.demand[idx] > 0 {
+				chosen = idx
+				break
+			}
+		}
+		if chosen < 0 {
+			return
+		}
+		a.seqNo++
+		rctx.Tell(a.slots[chosen], &streamElement{
+			subID: a.slotSubIDs[chosen],
+			value: a.buf.pop(),
+			seqNo: a.seqNo,
+		})
+		a.demand[chosen]--
+		a.nextSlot = (chosen + 1) % a.n
+	}
+}
+
+// complete tells every active slot that the stream is complete and stops the hub.
+func (a *balanceHubActor[T]) complete(rctx *actor.ReceiveContext) {
+	for i, slot := range a.slots {
+		if slot != nil {
+			rctx.Tell(slot, &streamComplete{subID: a.slotSubIDs[i]})
+		}
+	}
+	rctx.Shutdown()
+}
 
 // maybePull requests elements from upstream when at least one active slot has
 // outstanding demand and no elements are currently in flight.
